@@ -61,7 +61,7 @@ func causeOf(e error) string {
 		if ke == sarama.ErrUnsupportedVersion {
 			return "u"
 		}
-		return "k" + strconv.Itoa(int(ke))
+		return "c" + strconv.Itoa(int(ke))
 	}
 	if e == sarama.ErrIncompleteResponse {
 		return "i"
@@ -430,6 +430,32 @@ func idealVerdict(op string, rp sarama.VerifReply) (nc bool, verdict string) {
 	return false, "wrapped " + strings.Join(cs, ",")
 }
 
+// successSig names the kind of "success although the answer was not an acknowledgement"
+func successSig(op string, rp sarama.VerifReply) string {
+	if !strings.HasPrefix(op, "ar") || rp.Transport {
+		return "ctrl-success-despite-error"
+	}
+	missing := false
+	for p := 0; p < nparts(op); p++ {
+		if _, ok := rp.Items[int32(p)]; !ok {
+			missing = true
+		}
+	}
+	itemErr := false
+	for _, c := range rp.Items {
+		if c != 0 {
+			itemErr = true
+		}
+	}
+	switch {
+	case rp.Top < 0 && !itemErr:
+		return "reassign-negative-top-level-code-reported-as-success"
+	case missing && rp.Top == 0 && !itemErr:
+		return "reassign-missing-partition-reported-as-success"
+	}
+	return "ctrl-success-despite-error"
+}
+
 func causesSubset(got, want string) bool {
 	w := map[string]bool{}
 	for _, c := range strings.Split(strings.TrimPrefix(want, "wrapped "), ",") {
@@ -514,33 +540,11 @@ func doCtrl(cl *sarama.VerifCluster, line string, t []string) string {
 			ioFail("ctrl-retried-after-final-answer", line, fmt.Sprintf("%d requests, final answer was attempt %d; %s", len(sent), k, out))
 		case result != want:
 			sig := "ctrl-result-differs-from-controller-verdict"
-			if isAR && result == "ok" {
-				rp := replies[k]
-				missing := false
-				for p := 0; p < nparts(op); p++ {
-					if _, ok := rp.Items[int32(p)]; !ok {
-						missing = true
-					}
-				}
-				itemErr := false
-				for _, c := range rp.Items {
-					if c != 0 {
-						itemErr = true
-					}
-				}
-				switch {
-				case rp.Top < 0 && !itemErr:
-					sig = "reassign-negative-top-level-code-reported-as-success"
-				case missing && rp.Top == 0 && !itemErr:
-					sig = "reassign-missing-partition-reported-as-success"
-				default:
-					sig = "ctrl-success-despite-error"
-				}
+			if result == "ok" {
+				sig = successSig(op, replies[k])
 			} else if isAR && strings.HasPrefix(result, "wrapped ") && strings.HasPrefix(want, "wrapped ") && causesSubset(result, want) {
 				// an error is reported and every reported cause is one the controller gave (the aggregate need not list all)
 				sig = ""
-			} else if result == "ok" {
-				sig = "ctrl-success-despite-error"
 			}
 			if sig != "" {
 				ioFail(sig, line, fmt.Sprintf("want %s; %s", want, out))
@@ -557,7 +561,7 @@ func doCtrl(cl *sarama.VerifCluster, line string, t []string) string {
 			ioFail(sig, line, out)
 		} else if len(sent) <= len(replies) && !(k < max && len(sent) == k+1) {
 			if _, v := idealVerdict(op, replies[len(sent)-1]); v != "ok" {
-				ioFail("ctrl-success-despite-error", line, fmt.Sprintf("last answer was %s; %s", v, out))
+				ioFail(successSig(op, replies[len(sent)-1]), line, fmt.Sprintf("last answer was %s; %s", v, out))
 			}
 		}
 	}
@@ -716,6 +720,14 @@ func doDR(cl *sarama.VerifCluster, line string, t []string) string {
 			for _, c := range rp.Items {
 				if c != 0 {
 					anyErr = true
+				}
+			}
+		}
+		if !anyErr && result == "ok" {
+			for _, l := range ls {
+				if _, ok := br[l.to].Items[l.item]; !ok {
+					run.Count("dr:observed:response-lacks-a-requested-partition-yet-success")
+					break
 				}
 			}
 		}
